@@ -26,6 +26,9 @@ package gcc
 //@   ensures published_in_bounds: calls("c.dsWriter") == 1 ==> c.minBitrate <= callarg("c.dsWriter", 0).TargetBitrate && callarg("c.dsWriter", 0).TargetBitrate <= c.maxBitrate
 //@   ensures published_is_target: calls("c.dsWriter") == 1 ==> callarg("c.dsWriter", 0).TargetBitrate == atcall("c.dsWriter", c.target)
 //@   ensures not_called_with_lock: calls("c.dsWriter") == 1 ==> atcall("c.dsWriter", lockstate(c.lock)) != -1
+//@   # every path (first sample, hold, increase, decrease) leaves the controller's lock as it found it, so later updates are not wedged
+//@   ensures lock_released_without_update: old(lockstate(c.lock)) == 0 && calls("c.dsWriter") == 0 ==> lockstate(c.lock) == old(lockstate(c.lock))
+//@   ensures lock_released_before_update: old(lockstate(c.lock)) == 0 && calls("c.dsWriter") == 1 ==> atcall("c.dsWriter", lockstate(c.lock)) == old(lockstate(c.lock))
 //@
 //@ # loss-based controller: never hands out more than the wanted rate
 //@ func (*lossBasedBandwidthEstimator).getEstimate
@@ -49,6 +52,31 @@ package gcc
 //@   ensures callback_same_rate: calls("go e.onTargetBitrateChange") == 1 ==> callarg("go e.onTargetBitrateChange", 0) == e.latestBitrate && e.latestBitrate != old(e.latestBitrate)
 //@   ensures callback_iff_changed_and_set: (calls("go e.onTargetBitrateChange") == 1) <==> (e.latestBitrate != old(e.latestBitrate) && old(e.onTargetBitrateChange) != nil)
 //@   ensures stats_recorded: e.latestStats.DelayStats.TargetBitrate == delayStats.TargetBitrate
+//@
+//@ # constructors of the parts (they start their own goroutines; only "returns a new object, touches nothing that exists" is assumed)
+//@ func newLeakyBucketPacer
+//@   trusted constructor: allocates the pacer and starts its goroutine; touches no existing object
+//@   modifies nothing
+//@   ensures fresh: result != nil && fresh(result)
+//@ func newLossBasedBWE
+//@   trusted constructor: allocates the loss controller; touches no existing object
+//@   modifies nothing
+//@   ensures fresh: result != nil && fresh(result)
+//@ func newDelayController
+//@   trusted constructor: allocates the delay controller and starts its goroutines; touches no existing object
+//@   modifies nothing
+//@   ensures fresh: result != nil && fresh(result)
+//@
+//@ # construction: the pacer, the loss controller and the delay controller all start from the configured initial rate and bounds
+//@ func NewSendSideBWE
+//@   modifies *
+//@   ensures ok_or_error: (result0 == nil) <==> (result1 != nil)
+//@   ensures pacer_starts_at_configured_rate: calls("newLeakyBucketPacer") == 1 ==> callarg("newLeakyBucketPacer", 0) == atcall("newLeakyBucketPacer", result0.latestBitrate)
+//@   ensures loss_controller_starts_at_configured_rate: result0 != nil ==> calls("newLossBasedBWE") == 1 && callarg("newLossBasedBWE", 0) == atcall("newLossBasedBWE", result0.latestBitrate)
+//@   ensures delay_controller_gets_configured_bounds: result0 != nil ==> calls("newDelayController") == 1
+//@        && callarg("newDelayController", 0).initialBitrate == atcall("newDelayController", result0.latestBitrate)
+//@        && callarg("newDelayController", 0).minBitrate == atcall("newDelayController", result0.minBitrate)
+//@        && callarg("newDelayController", 0).maxBitrate == atcall("newDelayController", result0.maxBitrate)
 //@
 //@ func (*SendSideBWE).GetTargetBitrate
 //@   modifies e.lock
